@@ -1,0 +1,305 @@
+//go:build verif
+
+package cty
+
+import (
+	"fmt"
+	"math/big"
+	"reflect"
+	"sort"
+	"unicode/utf8"
+
+	"github.com/zclconf/go-cty/cty/set"
+)
+
+// VerifWellFormed is compiled only with the build tag "verif". It checks that
+// a value's internal payload is consistent with its type, looking directly at
+// the Go kinds the accessors would otherwise only trip over later: payload
+// kind per type, recursion into members, set rules and bucket placement,
+// marker nesting, refinement kind versus type. It returns nil for a
+// well-formed value and otherwise an error naming the first inconsistency.
+func VerifWellFormed(v Value) error {
+	return verifWF(v.ty, v.v, "", false)
+}
+
+func verifTypeHasOptional(t Type) bool {
+	switch impl := t.typeImpl.(type) {
+	case typeList:
+		return verifTypeHasOptional(impl.ElementTypeT)
+	case typeMap:
+		return verifTypeHasOptional(impl.ElementTypeT)
+	case typeSet:
+		return verifTypeHasOptional(impl.ElementTypeT)
+	case typeTuple:
+		for _, et := range impl.ElemTypes {
+			if verifTypeHasOptional(et) {
+				return true
+			}
+		}
+	case typeObject:
+		if len(impl.AttrOptional) > 0 {
+			return true
+		}
+		for _, at := range impl.AttrTypes {
+			if verifTypeHasOptional(at) {
+				return true
+			}
+		}
+	}
+	return false
+}
+
+func verifWF(ty Type, raw interface{}, where string, inSet bool) error {
+	bad := func(f string, a ...interface{}) error {
+		return fmt.Errorf("at %q: %s", where, fmt.Sprintf(f, a...))
+	}
+	if ty.typeImpl == nil {
+		return bad("value has no type")
+	}
+	if where == "" && verifTypeHasOptional(ty) {
+		return bad("type carries optional-attribute annotations: %#v", ty)
+	}
+	if mr, ok := raw.(marker); ok {
+		if inSet {
+			return bad("marked value inside a set")
+		}
+		if _, nested := mr.realV.(marker); nested {
+			return bad("nested marker")
+		}
+		if len(mr.marks) == 0 {
+			return bad("marker with no marks")
+		}
+		raw = mr.realV
+	}
+	switch rv := raw.(type) {
+	case nil:
+		return nil // null of any type
+	case *unknownType:
+		if rv == nil {
+			return bad("nil *unknownType")
+		}
+		return verifWFRefinement(ty, rv.refinement, where)
+	}
+	switch {
+	case ty == DynamicPseudoType:
+		return bad("known non-null value of the dynamic pseudo-type (%T)", raw)
+	case ty == Bool:
+		if _, ok := raw.(bool); !ok {
+			return bad("bool payload is %T", raw)
+		}
+	case ty == String:
+		s, ok := raw.(string)
+		if !ok {
+			return bad("string payload is %T", raw)
+		}
+		if utf8.ValidString(s) && NormalizeString(s) != s {
+			return bad("string %q is not NFC-normalized", s)
+		}
+	case ty == Number:
+		f, ok := raw.(*big.Float)
+		if !ok {
+			return bad("number payload is %T", raw)
+		}
+		if f == nil {
+			return bad("number payload is nil *big.Float")
+		}
+	case ty.IsListType():
+		l, ok := raw.([]interface{})
+		if !ok {
+			return bad("list payload is %T", raw)
+		}
+		ety := ty.ElementType()
+		for i, ev := range l {
+			if err := verifWF(ety, ev, fmt.Sprintf("%s[%d]", where, i), inSet); err != nil {
+				return err
+			}
+		}
+	case ty.IsTupleType():
+		l, ok := raw.([]interface{})
+		if !ok {
+			return bad("tuple payload is %T", raw)
+		}
+		etys := ty.TupleElementTypes()
+		if len(l) != len(etys) {
+			return bad("tuple has %d elements but its type has %d", len(l), len(etys))
+		}
+		for i, ev := range l {
+			if err := verifWF(etys[i], ev, fmt.Sprintf("%s[%d]", where, i), inSet); err != nil {
+				return err
+			}
+		}
+	case ty.IsMapType():
+		m, ok := raw.(map[string]interface{})
+		if !ok {
+			return bad("map payload is %T", raw)
+		}
+		ety := ty.ElementType()
+		for _, k := range verifSortedKeys(m) {
+			ev := m[k]
+			if utf8.ValidString(k) && NormalizeString(k) != k {
+				return bad("map key %q is not NFC-normalized", k)
+			}
+			if err := verifWF(ety, ev, fmt.Sprintf("%s[%q]", where, k), inSet); err != nil {
+				return err
+			}
+		}
+	case ty.IsObjectType():
+		m, ok := raw.(map[string]interface{})
+		if !ok {
+			return bad("object payload is %T", raw)
+		}
+		atys := ty.AttributeTypes()
+		if len(m) != len(atys) {
+			return bad("object has %d attribute values but its type has %d", len(m), len(atys))
+		}
+		for _, k := range verifSortedTypeKeys(atys) {
+			aty := atys[k]
+			if utf8.ValidString(k) && NormalizeString(k) != k {
+				return bad("attribute name %q is not NFC-normalized", k)
+			}
+			ev, ok := m[k]
+			if !ok {
+				return bad("attribute %q has no value", k)
+			}
+			if err := verifWF(aty, ev, fmt.Sprintf("%s.%s", where, k), inSet); err != nil {
+				return err
+			}
+		}
+	case ty.IsSetType():
+		s, ok := raw.(set.Set[interface{}])
+		if !ok {
+			return bad("set payload is %T", raw)
+		}
+		ety := ty.ElementType()
+		r, ok := s.Rules().(setRules)
+		if !ok {
+			return bad("set rules are %T", s.Rules())
+		}
+		if !r.Type.Equals(ety) {
+			return bad("set rules are for %#v but element type is %#v", r.Type, ety)
+		}
+		ids, buckets := s.VerifBuckets()
+		var all []interface{}
+		for i, id := range ids {
+			if len(buckets[i]) == 0 {
+				return bad("empty bucket %d retained", id)
+			}
+			for j, ev := range buckets[i] {
+				w := fmt.Sprintf("%s{bucket %d #%d}", where, id, j)
+				if err := verifWF(ety, ev, w, true); err != nil {
+					return err
+				}
+				if h := r.Hash(ev); h != id {
+					return fmt.Errorf("at %q: member hashes to %d but is stored in bucket %d", w, h, id)
+				}
+				all = append(all, ev)
+			}
+		}
+		for i := range all {
+			for j := i + 1; j < len(all); j++ {
+				if r.Equivalent(all[i], all[j]) {
+					return bad("set holds two equal members: %#v and %#v", Value{ty: ety, v: all[i]}, Value{ty: ety, v: all[j]})
+				}
+			}
+		}
+	case ty.IsCapsuleType():
+		rvv := reflect.ValueOf(raw)
+		if rvv.Kind() != reflect.Ptr {
+			return bad("capsule payload is %T, not a pointer", raw)
+		}
+		if !rvv.Type().Elem().AssignableTo(ty.EncapsulatedType()) {
+			return bad("capsule payload %T does not match %s", raw, ty.EncapsulatedType())
+		}
+	default:
+		return bad("unsupported type %#v", ty)
+	}
+	return nil
+}
+
+func verifSortedKeys(m map[string]interface{}) []string {
+	keys := make([]string, 0, len(m))
+	for k := range m {
+		keys = append(keys, k)
+	}
+	sort.Strings(keys)
+	return keys
+}
+
+func verifSortedTypeKeys(m map[string]Type) []string {
+	keys := make([]string, 0, len(m))
+	for k := range m {
+		keys = append(keys, k)
+	}
+	sort.Strings(keys)
+	return keys
+}
+
+func verifWFRefinement(ty Type, r unknownValRefinement, where string) error {
+	bad := func(f string, a ...interface{}) error {
+		return fmt.Errorf("at %q: %s", where, fmt.Sprintf(f, a...))
+	}
+	if r == nil {
+		return nil
+	}
+	if rvv := reflect.ValueOf(r); rvv.Kind() == reflect.Ptr && rvv.IsNil() {
+		return bad("refinement is a typed nil %T", r)
+	}
+	switch n := r.null(); n {
+	case tristateTrue, tristateFalse, tristateUnknown:
+	default:
+		return bad("refinement nullness is %d", n)
+	}
+	switch rr := r.(type) {
+	case *refinementString:
+		if ty != String {
+			return bad("string refinement on %#v", ty)
+		}
+		if !utf8.ValidString(rr.prefix) {
+			return bad("refined prefix %q is not valid UTF-8", rr.prefix)
+		}
+		if NormalizeString(rr.prefix) != rr.prefix {
+			return bad("refined prefix %q is not NFC-normalized", rr.prefix)
+		}
+	case *refinementNumber:
+		if ty != Number {
+			return bad("number refinement on %#v", ty)
+		}
+		for _, bv := range []Value{rr.min, rr.max} {
+			if bv == NilVal {
+				continue
+			}
+			if bv.ty != Number {
+				return bad("numeric bound has type %#v", bv.ty)
+			}
+			if _, ok := bv.v.(*big.Float); !ok {
+				return bad("numeric bound payload is %T (must be a known, non-null, unmarked number)", bv.v)
+			}
+		}
+		if rr.min != NilVal && rr.max != NilVal {
+			c := rr.min.v.(*big.Float).Cmp(rr.max.v.(*big.Float))
+			if c > 0 {
+				return bad("numeric bounds out of order: %#v > %#v", rr.min, rr.max)
+			}
+			if c == 0 && !(rr.minInc && rr.maxInc) {
+				return bad("numeric bounds %#v..%#v admit nothing (an exclusive bound at equal limits)", rr.min, rr.max)
+			}
+		}
+	case *refinementCollection:
+		if !ty.IsCollectionType() {
+			return bad("collection refinement on %#v", ty)
+		}
+		if rr.minLen < 0 || rr.maxLen < rr.minLen {
+			return bad("length bounds %d..%d", rr.minLen, rr.maxLen)
+		}
+	case *refinementNullable:
+		if ty == String || ty == Number || ty.IsCollectionType() || ty == DynamicPseudoType {
+			return bad("nullness-only refinement on %#v", ty)
+		}
+	default:
+		return bad("unknown refinement kind %T", r)
+	}
+	if ty == DynamicPseudoType {
+		return bad("refinement on the dynamic pseudo-type")
+	}
+	return nil
+}
